@@ -186,6 +186,19 @@ Fixpoint nt_remove (k : bytes) (l : list (bytes * obj)) : list (bytes * obj) :=
   | (k', v') :: r => if beqb k k' then r else (k', v') :: nt_remove k r
   end.
 
+(* ---------- the PDF version of a written document ---------- *)
+(* versions as 10 * major + minor: 10 .. 17, 20.  XRefTable.Version: a catalog /Version takes
+   precedence over the header. *)
+Definition effective (header : N) (root : option N) : N :=
+  match root with Some v => v | None => header end.
+(* WriteContext: the header written is 1.7 (2.0 when the document is a PDF 2.0 document) and the
+   catalog /Version is always deleted.  ensured = the operation called EnsureVersionForWriting
+   (RootVersion := 1.7 in memory: stamps, annotations, resize, zoom, merge ...) *)
+Definition write_versions (ensured : bool) (header : N) (root : option N) : N * option N :=
+  let eff := if ensured then 17%N else effective header root in
+  ((if N.eqb eff 20 then 20 else 17)%N, None).
+Definition valid_version (v : N) : bool := (N.leb 10 v && N.leb v 17) || N.eqb v 20.
+
 (* ---------- entry points for the harness: page identifiers after an operation ---------- *)
 Definition ids (t : ptree) : list N := map fst (leaves t).
 Definition root_count (t : ptree) : Z :=
